@@ -4,12 +4,13 @@
    message) pair; every generated TRANSITION prints its hidden history (one delivery history per
    pair); shareTab rows keep insertion order, so different arrival orders are different states *)
 EXTENDS EpochKGPipe, Json
-CONSTANTS Emit, DupIds
+CONSTANTS Emit, DupIds, WithKeys     \* WithKeys: DecryptionKeys messages are part of the alphabet
 VARIABLES db, gh, last, obs, hist
 vars == <<db, gh, last, obs, hist>>
 
 (* DupIds = FALSE leaves out messages naming one identity twice *)
-AlphaSet == {m \in Msgs : DupIds \/ Len(m.shares) = 1 \/ m.shares[1].id # m.shares[2].id}
+AlphaSet == {m \in Msgs : /\ m.t = "keys" => WithKeys
+                          /\ DupIds \/ Len(MsgIds(m)) = 1 \/ MsgIds(m)[1] # MsgIds(m)[2]}
 Alphabet == SetToSeq(AlphaSet)
 ASSUME PrintT(<<"ALPHABET", ToJson(Alphabet)>>)
 ASSUME PrintT(<<"CONST", ToJson([n |-> N, t |-> T, idents |-> IdOrder])>>)
